@@ -71,7 +71,8 @@ def _wound_case(w, kind, extras, perm, dtype, src):
           {"a": "Ravel", "name": gd[0]},          # collides with a flattened grid dimension
           {"a": "Wind", "kind": kind, "mode": "negaxis"},
           {"a": "URavel", "dims": gd, "sizes": gs, "name": "<default>"},
-          {"a": "UWind", "dims": gd, "sizes": gs, "mode": "dim"}]
+          {"a": "UWind", "dims": gd, "sizes": gs, "mode": "dim"},
+          {"a": "Ravel", "name": "<default>", "api": "make_linear"}]       # the older (deprecated, still public) name of ravel
     return {"src": src, "w": {"conv": w["conv"], "G": G}, "world": w, "events": ev}
 
 
@@ -200,7 +201,9 @@ def execute(case: dict) -> dict:
             lin_name = e["lin"] or None
         elif a in ("Ravel", "URavel"):
             name = None if e["name"] == "<default>" else e["name"]
-            if a == "Ravel":
+            if a == "Ravel" and e.get("api") == "make_linear":
+                res = outcome(lambda: conv.make_linear(cur))
+            elif a == "Ravel":
                 res = outcome(lambda: conv.ravel(cur, linear_dimension=name))
             else:
                 res = outcome(lambda: utils.ravel_dimensions(cur, list(e["dims"]), linear_dimension=name))
